@@ -254,7 +254,8 @@ SUITES = {
     "C20": {"suites": [sys_suite("c20-sys", "c20_ok", {"n": 25, "shards": 10}, {"n": 200, "shards": 16}, extra=["--faults"]),
                        # every placement of one fault (quick) and of two faults (thorough) over the scheduler's calls of base scenarios
                        sys_suite("c20-sys-exhaustive", "c20_ok", {"n": 0, "shards": 6, "args": ["--exhaustive", "3"]},
-                                 {"n": 0, "shards": 16, "args": ["--exhaustive", "2", "--pairs"]}, length=100)]},
+                                 {"n": 0, "shards": 16, "args": ["--exhaustive", "2", "--pairs"]}, length=100)],
+            "rule": "two suites: random multi-fault schedules (a sixth of the scheduler's calls fails before or after taking effect, alternately with a plain error and a wrapped context.Canceled; failing look-ups inside the hook; dispatches cancelled while waiting for a worker) and, for seeded base scenarios, EVERY placement of one fault (thorough: of two faults) over the scheduler's calls before quiescence, one run per placement; every run ends with a fault-free quiescence phase; distinct = distinct sha1 of the printed label trace"},
     "C07": {"suites": [
         hook_suite("c07-hook", {"n": 40, "shards": 8}, {"n": 400, "shards": 16}),
         hook_suite("c07-hook-faults", {"n": 30, "shards": 4}, {"n": 300, "shards": 16}, extra=["--faults"]),
@@ -263,7 +264,7 @@ SUITES = {
         hook_suite("c07-hook-exhaustive", {"n": 3, "shards": 4, "args": ["--exhaustive", "2", "--full-domain"]},
                    {"n": 1, "shards": 16, "args": ["--exhaustive", "3", "--max-ids", "2"]}, length=4),
         hook_conc_suite("c07-hook-concurrent", {"n": 150, "shards": 4}, {"n": 1500, "shards": 16}),
-    ]},
+    ], "rule": "four suites: random hook histories (40 operations over 3 times x 3 priorities, sub-millisecond parts), the same with failing look-ups inside re-arming, EVERY sequence of 2 (thorough: 3) operations over the small domains after a drawn prefix (exhaustive to that depth for the prefixes drawn), and 2-3 goroutines mutating shared tasks at once judged at quiescence; distinct = distinct sha1 of the printed history (all carry their own observations)"},
     "C08": {"suites": [
         pool_suite("c08-pool", {"n": 40, "shards": 8}, {"n": 400, "shards": 16}),
     ], "rule": "1..4 initial workers, up to 12 dispatching goroutines with gated work functions, random interleavings of launch / release / cancel-waiting / Add / Remove; the observed event sequence must be accepted by the pool LTS; distinct = distinct event sequence"},
